@@ -203,6 +203,20 @@ def run(tier):
     log(f"[{PID}] {len(devents)} decoration-style strings compared with their lower-case form by TLC, {len(dfailed)} rejected")
     failed, tr = tlc.validate_trace("Trace_Style", events)
     log(f"[{PID}] {len(events)} style strings judged by TLC (Trace_Style), {len(failed)} rejected ({notfound} not located)")
+    # inline-hint-style (wrap symbols): a recorded finding, see known_findings.json
+    longd = (b"diff --git a/locFile.txt b/locFile.txt\nindex 1..2 100644\n--- a/locFile.txt\n+++ b/locFile.txt\n@@ -1,1 +1,1 @@\n"
+             b"-" + b"old words " * 9 + b"\n+" + b"new words " * 9 + b"\n")
+    r = core.run_delta(["--no-gitconfig", "--syntax-theme", "none", "--side-by-side", "--width", "60", "--true-color", "always",
+                        "--inline-hint-style", "red bold", "--plus-style", 'normal "#003300"'], longd)
+    hint = []
+    for b in r.out.split(b"\n"):
+        cs, pen = lexer.cells(lexer.tokens(b))
+        hint += [(tuple(fg), frozenset(at)) for g, fg, bg, at, lk in cs if g == "\u21b5"]
+    if not hint:
+        raise core.ToolError("no wrap symbol found in the side-by-side rendering of a long line")
+    if any(fg != (1,) or "bold" not in at for fg, at in hint):
+        V.violation("inline-hint-style-partly-applied", f"wrap symbols under --inline-hint-style 'red bold' are painted as {sorted(set(hint))[:3]}",
+                    {"run": r.to_json()})
     for f in failed:
         ws, opt, tc, rt = jobs[f["run"]]
         r, obs, rtv = res[f["run"]]
